@@ -14,7 +14,7 @@ pub fn prop() -> Prop {
         rule: "all streams of <=4 (thorough <=6) rows {k,v,id} over the keys {a,b,c,absent} (ids make tied rows distinguishable) plus every stream of <=3 rows repeated cyclically to 17 and 40 rows, and streams of 257 and 1030 rows (S,T around 255..257 and the end) x 14 pipelines (none; sort on selected names; a selection under which rows repeat; 1,2,3 sort keys with ties in both directions; unique; unique+sort on a selected name; filter; filter+sort; split; split+sort) x {no grouping, --group-by, --merge} x S in 0..3 (thorough 0..6; long: 0,1,5,16,17,39,40,41) x T in {absent,0..3} (thorough 0..6; long: 0,1,5,16,17,40,41); for half of the (S,T) the same input is also given as two and three files; non-trivial = the cut S+T falls inside the unlimited result and a tie straddles it, or a grouping stage follows the limiter; distinct by construction",
         explanation: "differential: the rows R of the same pipeline without --skip/--take (and without grouping) are obtained from the implementation; with the limits the output must be exactly R[S..S+T), and with grouping the single collection built from exactly those rows; every case is also compared with the reference pipeline (stable multi-key sort, first key most significant)",
         assumptions: COMMON_ASSUMPTIONS.to_vec(),
-        guards: vec!["input-spread-over-files", "hundreds-of-rows", "cut-inside-a-tie", "limiter-before-grouper", "secondary-key-with-take", "take-zero", "skip-beyond-end", "more-rows-than-skip-plus-take-under-sort"],
+        guards: vec!["command-line-respelled", "input-spread-over-files", "hundreds-of-rows", "cut-inside-a-tie", "limiter-before-grouper", "secondary-key-with-take", "take-zero", "skip-beyond-end", "more-rows-than-skip-plus-take-under-sort"],
         budget_s: (100, 2400),
         single_worker: false,
         run,
@@ -128,7 +128,7 @@ fn explore(ctx: &mut Ctx, pl: &Pl, rows: &[V], ss: &[u64], ts: &[Option<u64>]) {
                     Some(Group::Merge) => "merge",
                 };
                 let sig = format!("{} {}", pl.name, gname);
-                let (_, out) = pipe::run_rows(ctx, &case, &sig);
+                let (_, out) = pipe::run_rows_respelled(ctx, &case, &sig);
                 ctx.case_done();
                 ctx.trace_validated();
                 ctx.transition(&(pl.name, gname, *s, *t, r.len()));
